@@ -716,11 +716,11 @@ func dischargeAssert(p *Prog, ta *ssa.TypeAssert) (string, bool) {
 		okAll, n := true, 0
 		allInstrs(f, func(in ssa.Instruction) {
 			r, ok := in.(*ssa.Return)
-			if !ok || len(r.Results) <= idx {
+			if !ok || len(rr(r)) <= idx {
 				return
 			}
 			n++
-			rv := r.Results[idx]
+			rv := rr(r)[idx]
 			mi, ok := rv.(*ssa.MakeInterface)
 			if !ok || !types.Identical(mi.X.Type(), ta.AssertedType) {
 				// index into a typed slice etc.: accept when the static type of the underlying value is identical
